@@ -249,9 +249,9 @@ Definition w_layers : str := [108;97;121;101;114;115].
 Definition w_scenarios : str := [115;99;101;110;97;114;105;111;115].
 Definition w_steps : str := [115;116;101;112;115].
 Definition is_board_word (v : str) : bool := str_eqb v w_layers || str_eqb v w_scenarios || str_eqb v w_steps.
-(* MapNodeBox.IsBoardNode, evaluated on the key as printed *)
+(* MapNodeBox.IsBoardNode (since 652bee77b: only an UNQUOTED one-segment key), evaluated on the key as printed *)
 Definition is_board_path (p : list snode) : bool :=
-  match p with [s] => is_board_word (sval (norm_snode true s)) | _ => false end.
+  match p with [SUnq r] => is_board_word (sval (norm_snode true (SUnq r))) | _ => false end.
 
 (* classification of an unquoted value (parseValue) *)
 Definition kw_class (v : str) : option scalar :=
